@@ -117,11 +117,12 @@ theorem summit_order_negation (I : Island ℝ) (l : List Summit) :
   sortSummits_neg I l
 
 /-- **bounds_negation**: `(amp_min, amp_max)` of `−amp` is `(−amp_max, −amp_min)` of `amp`, for
-    every non-zero amplitude, every rms and every pair of clip levels. -/
-theorem bounds_negation (amp r inner outer : ℝ) (h : amp ≠ 0) :
-    ampBounds (-amp) r inner outer
-      = (-(ampBounds amp r inner outer).2, -(ampBounds amp r inner outer).1) :=
-  ampBounds_neg amp r inner outer h
+    every non-zero amplitude, every rms, every pair of clip levels and every sampling allowance
+    (`max(1.05, 2^(2/b²))` in the code; nothing about its value is needed). -/
+theorem bounds_negation (amp r inner outer samp : ℝ) (h : amp ≠ 0) :
+    ampBounds (-amp) r inner outer samp
+      = (-(ampBounds amp r inner outer samp).2, -(ampBounds amp r inner outer samp).1) :=
+  ampBounds_neg amp r inner outer samp h
 
 /-- **estimate_negation_partial**: for every island whose finite pixels share one strict sign
     (with its curvature negated, see `island_curve_negation`), every rms map, clip levels and
@@ -148,13 +149,13 @@ theorem flags_negation_invariant_partial (P : Params ℝ) (I : Island ℝ) (hs :
     window, and then every initial value, bound, flag and vary switch) is the mirror image of what
     it computes for the image. -/
 theorem fit_inputs_negation_partial (P : Params ℝ) (imgH imgW xmin xmax ymin ymax : Nat)
-    (img rms : Px → ℝ) (mem : Px → Bool)
-    (hs : SingleSign (mkIsland imgH imgW xmin xmax ymin ymax img rms mem))
-    (hne : finitePx (mkIsland imgH imgW xmin xmax ymin ymax img rms mem) ≠ []) :
-    estimate P (mkIsland imgH imgW xmin xmax ymin ymax (fun q => -img q) rms mem)
-      = (estimate P (mkIsland imgH imgW xmin xmax ymin ymax img rms mem)).map (List.map negC) := by
-  have e : mkIsland imgH imgW xmin xmax ymin ymax (fun q => -img q) rms mem
-      = negI (mkIsland imgH imgW xmin xmax ymin ymax img rms mem) := by
+    (img rms samp : Px → ℝ) (mem : Px → Bool)
+    (hs : SingleSign (mkIsland imgH imgW xmin xmax ymin ymax img rms samp mem))
+    (hne : finitePx (mkIsland imgH imgW xmin xmax ymin ymax img rms samp mem) ≠ []) :
+    estimate P (mkIsland imgH imgW xmin xmax ymin ymax (fun q => -img q) rms samp mem)
+      = (estimate P (mkIsland imgH imgW xmin xmax ymin ymax img rms samp mem)).map (List.map negC) := by
+  have e : mkIsland imgH imgW xmin xmax ymin ymax (fun q => -img q) rms samp mem
+      = negI (mkIsland imgH imgW xmin xmax ymin ymax img rms samp mem) := by
     simp only [mkIsland, negI]
     congr 1
     · funext p; simp only [negImg]; split <;> rfl
@@ -163,13 +164,13 @@ theorem fit_inputs_negation_partial (P : Params ℝ) (imgH imgW xmin xmax ymin y
 
 /-- a fitted amplitude that stays inside its bounds has the sign of the initial amplitude,
     in particular it is never 0: the hypothesis `polarity_partition` needs -/
-theorem amp_interval_excludes_zero (amp r inner outer a : ℝ) (hr : 0 < outer * r) (h0 : amp ≠ 0)
-    (hlo : (ampBounds amp r inner outer).1 ≤ a) (hhi : a ≤ (ampBounds amp r inner outer).2) :
+theorem amp_interval_excludes_zero (amp r inner outer samp a : ℝ) (hr : 0 < outer * r) (h0 : amp ≠ 0)
+    (hlo : (ampBounds amp r inner outer samp).1 ≤ a) (hhi : a ≤ (ampBounds amp r inner outer samp).2) :
     (0 < amp → 0 < a) ∧ (amp < 0 → a < 0) ∧ a ≠ 0 := by
   rcases lt_or_gt_of_ne h0 with hn | hp
-  · have := ampBounds_neg_side amp r inner outer hn hr
+  · have := ampBounds_neg_side amp r inner outer samp hn hr
     refine ⟨fun h => absurd h (by linarith), fun _ => by linarith, by linarith⟩
-  · have := ampBounds_pos amp r inner outer hp hr
+  · have := ampBounds_pos amp r inner outer samp hp hr
     exact ⟨fun _ => by linarith, fun h => absurd h (by linarith), by linarith⟩
 
 /-! #### the mixed-sign negation witness (evaluated at `Float`, the driver's instance) -/
@@ -178,7 +179,7 @@ theorem amp_interval_excludes_zero (amp r inner outer a : ℝ) (hr : 0 < outer *
 def toy : Island Float :=
   { h := 1, w := 4,
     data := fun p => if p.1 = 0 then [1.0, 0.5, -0.5, -0.8][p.2]? else none,
-    rms := fun _ => 0.1, curve := fun _ => 0 }
+    rms := fun _ => 0.1, curve := fun _ => 0, sampling := fun _ => 1.05 }
 
 def toyP : Params Float := { inner := 5.0, outer := 4.0, maxSummits := none }
 
@@ -196,7 +197,7 @@ theorem mixed_sign_not_symmetric :
 def hill : Island Float :=
   { h := 3, w := 3,
     data := fun p => if p.1 < 3 then ([[1.0, 1.5, 1.0], [1.5, 3.0, 1.5], [1.0, 1.5, 1.0]][p.1]?.bind (·[p.2]?)) else none,
-    rms := fun _ => 0.1, curve := fun p => if p = (1, 1) then -1 else 0 }
+    rms := fun _ => 0.1, curve := fun p => if p = (1, 1) then -1 else 0, sampling := fun _ => 1.05 }
 
 example :
     isNegative hill = false ∧ isNegative (negI hill) = true ∧
